@@ -185,7 +185,7 @@ func c19totality(c *mon.Ctx) {
 		}
 	}
 
-	c.Stratum("totality", c.N(16000, 360000), func(k *mon.Case) {
+	c.Stratum("totality", c.N(16000, 720000), func(k *mon.Case) {
 		f, _ := fonts(k)
 		text, class := c19randomText(k.Rng, (k.Index/4)%9)
 		judge(k, f, text, class)
@@ -199,7 +199,7 @@ func c19totality(c *mon.Ctx) {
 		total += c19mutations(d)
 	}
 	c.Note("single-token mutations of %d valid descriptions: %d", len(c19valid), total)
-	reps := c.N(1, 4)
+	reps := c.N(1, 8)
 	c.Stratum("mutations", total*reps, func(k *mon.Case) {
 		i := k.Index % total
 		d := 0
